@@ -7,6 +7,12 @@
 //!         its task runs on the spawner's own OS thread and runtime); the driver synchronises on
 //!         what the operation must lead to (post_stop entered / the actor's task finished), then
 //!         runs the usual quiescence barrier on its own runtime
+//!     remote=1 (needs sup=1): the actor has a REMOTE ActorId (`ActorRuntime::spawn_linked_remote` under the
+//!         harness supervisor): never a name or pid entry, but group membership / monitoring like anybody
+//!     fragile=1: the actor's final State (graceful exits) / its handler's error value (cause err) has a
+//!         destructor that panics, armed when the cause is delivered: for an unsupervised actor the terminal
+//!         event is dropped inside ActorLifecycleGuard::cleanup, which unwinds half way; the guard's Drop
+//!         must finish the exit (the supervisor of a supervised actor forgets the payload: control case)
 //!     via=children: the cause (stop / drain) is delivered through the supervisor's
 //!         `stop_children()` / `drain_children()`
 //!     waiter kinds sc / dc: the SUPERVISOR's `stop_children_and_wait(None, tmo)` / `drain_children_and_wait(tmo)`
@@ -80,6 +86,29 @@ impl Gate {
     }
 }
 
+/// A value whose destructor panics once, when armed (like a nested runtime dropped in async context).
+#[derive(Clone, Default)]
+struct Fragile(Arc<std::sync::atomic::AtomicBool>);
+impl Drop for Fragile {
+    fn drop(&mut self) {
+        if self.0.swap(false, Ordering::SeqCst) && !std::thread::panicking() {
+            panic!("fragile drop panic");
+        }
+    }
+}
+struct FragileErr(#[allow(dead_code)] Fragile);
+impl std::fmt::Debug for FragileErr {
+    fn fmt(&self, f: &mut std::fmt::Formatter<'_>) -> std::fmt::Result {
+        write!(f, "handler failed")
+    }
+}
+impl std::fmt::Display for FragileErr {
+    fn fmt(&self, f: &mut std::fmt::Formatter<'_>) -> std::fmt::Result {
+        write!(f, "handler failed")
+    }
+}
+impl std::error::Error for FragileErr {}
+
 #[derive(Clone, Copy, PartialEq, Debug)]
 enum Res {
     Ok,
@@ -111,6 +140,7 @@ struct Cfg {
     ps_gate: Option<Gate>,
     handler_gate: Gate,
     flags: Arc<Flags>,
+    fragile: Fragile,
 }
 
 enum Msg {
@@ -149,7 +179,7 @@ impl Actor for Main {
     }
     async fn handle(&self, _: ActorRef<Msg>, m: Msg, cfg: &mut Cfg) -> Result<(), ActorProcessingErr> {
         match m {
-            Msg::Err => Err("handler failed".into()),
+            Msg::Err => Err(Box::new(FragileErr(cfg.fragile.clone()))),
             Msg::Panic => panic!("handler panic"),
             Msg::Park => {
                 cfg.flags.h_in.fetch_add(1, Ordering::SeqCst);
@@ -240,9 +270,17 @@ impl Actor for Sup {
         _: &mut (),
     ) -> Result<(), ActorProcessingErr> {
         match ev {
-            SupervisionEvent::ActorTerminated(who, _, _) | SupervisionEvent::ActorFailed(who, _) => {
+            SupervisionEvent::ActorTerminated(who, st, _) => {
                 if who.get_name().as_deref() == Some(self.main_name.as_str()) {
                     self.log.lock().unwrap().push("term".into());
+                    // (the payload may own a value with a panicking destructor: not this actor's business)
+                    std::mem::forget(st);
+                }
+            }
+            SupervisionEvent::ActorFailed(who, err) => {
+                if who.get_name().as_deref() == Some(self.main_name.as_str()) {
+                    self.log.lock().unwrap().push("term".into());
+                    std::mem::forget(err);
                 }
             }
             SupervisionEvent::ProcessGroupChanged(change) => {
@@ -277,6 +315,7 @@ struct Ctx {
     cell: ActorCell,
     name: String,
     group: String,
+    mon_group: String,
     flags: Arc<Flags>,
 }
 
@@ -289,7 +328,10 @@ impl Ctx {
             status: self.cell.get_status(),
             name: registry::where_is(self.name.clone()).map(|c| c.get_id() == id).unwrap_or(false),
             pid: registry::where_is_pid(id).is_some(),
-            pg: pg::get_members(&self.group).iter().any(|c| c.get_id() == id),
+            // still a member of its group, or still registered as a monitor of the other group
+            pg: pg::get_members(&self.group).iter().any(|c| c.get_id() == id)
+                || (!self.mon_group.is_empty()
+                    && pg::verif::snapshot().map.iter().any(|(_, g, _, listeners)| *g == self.mon_group && listeners.contains(&id))),
             ps_active: ps_in != ps_out,
             ps_done: ps_out > 0,
             children: self.cell.get_children().is_empty(),
@@ -398,6 +440,10 @@ async fn run_scenario(line: &str) -> String {
     };
     let park = kv(&head, "park") == "1";
     let tl = head.iter().any(|w| *w == "tl=1");
+    let remote = head.iter().any(|w| *w == "remote=1");
+    let is_fragile = head.iter().any(|w| *w == "fragile=1");
+    let fragile = Fragile::default();
+    let mon_group = format!("c06n-{pid}-{sid}");
     let via_children = head.iter().any(|w| *w == "via=children");
 
     let name = format!("c06-{pid}-{sid}");
@@ -423,6 +469,7 @@ async fn run_scenario(line: &str) -> String {
         ps_gate: park.then(|| ps_gate.clone()),
         handler_gate: Gate::new(),
         flags: flags.clone(),
+        fragile: fragile.clone(),
     };
 
     // supervisor and marker actor
@@ -455,6 +502,12 @@ async fn run_scenario(line: &str) -> String {
                 .expect("spawn_linked_instant"),
         };
         (r.get_cell(), AnyJoin::Instant(h))
+    } else if remote {
+        let id = ractor::ActorId::Remote { node_id: 7, pid: sid };
+        let (r, h) = ActorRuntime::<Main>::spawn_linked_remote(Some(name.clone()), Main, id, cfg, sup_ref.get_cell())
+            .await
+            .expect("spawn_linked_remote");
+        (r.get_cell(), AnyJoin::Plain(h))
     } else if with_sup {
         let (r, h) = match &spawner {
             Some(sp) => <Main as ThreadLocalActor>::spawn_linked(Some(name.clone()), cfg, sup_ref.get_cell(), sp.clone())
@@ -487,6 +540,7 @@ async fn run_scenario(line: &str) -> String {
     }
     pg::monitor(group.clone(), sup_ref.get_cell());
     pg::join(group.clone(), vec![main_cell.clone()]);
+    pg::monitor(mon_group.clone(), main_cell.clone());
     let mut kid_cells = Vec::new();
     let mut kid_gates = Vec::new();
     for kind in &kid_kinds {
@@ -527,7 +581,13 @@ async fn run_scenario(line: &str) -> String {
     let parkable = matches!(cause.as_str(), "stop" | "drain" | "pserr" | "pspanic" | "stopkill" | "abortps");
     let mut phase = 0; // 0 before the cause, 1 post_stop parked, 2 exit complete
 
-    let ctx = Arc::new(Ctx { cell: main_cell.clone(), name: name.clone(), group: group.clone(), flags: flags.clone() });
+    let ctx = Arc::new(Ctx {
+        cell: main_cell.clone(),
+        name: name.clone(),
+        group: group.clone(),
+        mon_group: mon_group.clone(),
+        flags: flags.clone(),
+    });
     // (waiter, outcome, snapshot) in completion order
     let done: Arc<Mutex<Vec<(u64, &'static str, Snap)>>> = Arc::new(Mutex::new(Vec::new()));
     let mut started: Vec<(u64, tokio::task::JoinHandle<()>)> = Vec::new();
@@ -538,6 +598,10 @@ async fn run_scenario(line: &str) -> String {
         let w: Vec<&str> = op.split_whitespace().collect();
         if w.is_empty() {
             continue;
+        }
+        // the cause is about to be delivered (by `x` or by a *_and_wait waiter): arm the destructor
+        if is_fragile && (w[0] == "x" || (w[0] == "w" && w.get(4) == Some(&"c"))) {
+            fragile.0.store(true, Ordering::SeqCst);
         }
         #[allow(unused_assignments)]
         let mut expect = 0u8; // 1 = like the cause, 2 = the exit completes, 3 = post_stop gets parked
@@ -690,6 +754,7 @@ async fn run_scenario(line: &str) -> String {
         if w[0] == "x" {
             expect = 1;
         }
+        let _ = &is_fragile;
         if expect == 1 {
             expect = if parkable && park { 3 } else { 2 };
         }
@@ -719,6 +784,7 @@ async fn run_scenario(line: &str) -> String {
 
     // pending waiters, with the final snapshot
     let final_snap = ctx.snapshot();
+    fragile.0.store(false, Ordering::SeqCst); // (disarm: the scenario is over)
     // every child signalled: with its gates still closed it has reached >= Stopping
     let kids_ok = kid_cells.iter().all(|k| k.get_status() >= ActorStatus::Stopping);
     let term_at_end = sup_log.lock().unwrap().iter().any(|e| e == "term");
@@ -943,6 +1009,7 @@ mod thr {
                         ps_gate: None,
                         handler_gate: Gate::new(),
                         flags: flags.clone(),
+                        fragile: Fragile::default(),
                     };
                     let (sup_ref, _sh) = Actor::spawn(
                         None,
@@ -997,7 +1064,13 @@ mod thr {
             })
         };
         let (main_cell, sup_cell, marker_cell) = ready_rx.recv().expect("setup");
-        let ctx = Arc::new(Ctx { cell: main_cell.clone(), name: name.clone(), group: group.clone(), flags: flags.clone() });
+        let ctx = Arc::new(Ctx {
+            cell: main_cell.clone(),
+            name: name.clone(),
+            group: group.clone(),
+            mon_group: String::new(),
+            flags: flags.clone(),
+        });
         let done: Arc<Mutex<Vec<(u64, &'static str, Snap)>>> = Arc::new(Mutex::new(Vec::new()));
         // waiter bookkeeping: last event of each waiter
         let mut last: HashMap<u64, Ev> = HashMap::new();
@@ -1189,7 +1262,7 @@ fn main() {
     // the scripted callback panics are part of the scenarios; anything else is a harness bug
     std::panic::set_hook(Box::new(|info| {
         let msg = info.to_string();
-        if !(msg.contains("handler panic") || msg.contains("post_stop panic")
+        if !(msg.contains("handler panic") || msg.contains("post_stop panic") || msg.contains("fragile drop panic")
             || msg.contains("pre_start panic") || msg.contains("post_start panic"))
         {
             eprintln!("{msg}");
